@@ -92,8 +92,8 @@ def interleave(per_lane_words, rng, style):
 
 
 # ------------------------------------------------------------------ frame plans
-def plan_frame(rng, layer, base_ids, kind, bc):
-    """-> list of (id byte, skeleton)"""
+def plan_frame(rng, layer, base_ids, kind, bc, special_id=None):
+    """-> list of (id byte, skeleton); special_id: the lane the frame's special treatment (e.g. the FATAL announcement) goes to"""
     ib = layer <= 2
     ids = list(base_ids)
     if kind == "missing-lane":
@@ -121,6 +121,8 @@ def plan_frame(rng, layer, base_ids, kind, bc):
         rng.shuffle(ids)
     lanes = []
     special = rng.randrange(len(ids))
+    if special_id is not None and special_id in ids:
+        special = ids.index(special_id)
     for k, idb in enumerate(ids):
         ln = lane_number(idb, ib)
         chips = [ln & 0xF] if ib else (list(range(7)) if rng.random() < 0.7 else list(range(8, 15)))
@@ -319,8 +321,24 @@ def run(tier, seed):
         nfr = rng.randrange(1, 6)
         plans, kinds = [], []
         fatal_gone = []     # lanes that announced fatal: legal later frames leave them out
+        # scripted sequence (a tenth of the streams): lane X announces FATAL, then another lane Y, then X AGAIN (it was still
+        # transmitting), then frames without both -- the list of fatal lanes is a set however often and in whatever order lanes announce
+        script = None
+        if s % 10 == 4 and len(base) >= 3:
+            x_, y_ = rng.sample(base, 2)
+            script = [("fatal-announce", list(base), x_), ("fatal-announce", [i for i in base if i != x_ or rng.random() < 0.5], y_),
+                      ("fatal-announce", [i for i in base if i != y_], x_), ("legal", [i for i in base if i not in (x_, y_)], None),
+                      (rng.choice(["missing-lane", "legal", "shuffled"]) if len(base) > 3 else "legal", [i for i in base if i not in (x_, y_)], None)]
+            nfr = len(script)
         for f in range(nfr):
             kind = rng.choice(KINDS)
+            if script:
+                kind, ids_s, sp_ = script[f]
+                bc = rng.randrange(256)
+                lanes = plan_frame(rng, layer, ids_s, kind, bc, special_id=sp_)
+                plans.append(lanes)
+                kinds.append(kind + "*")
+                continue
             if kind in ("wrong-group", "chip-id-wrong", "other-group", "high-lanes", "fatal-high-lane") and not ib:
                 kind = "chip-order"
             if kind in ("bc-chip-differs", "chip-order") and ib:
